@@ -53,12 +53,8 @@ def register(OPS, drv):
         else:
             for l in V.gemtext_links(body):
                 href = l["href"]
-                t = None
-                if href.startswith("/GEMINI-QUERY"):
-                    href = href[len("/GEMINI-QUERY"):]
-                    t = "7"
-                if l.get("search"):
-                    t = "7"
+                t = "7" if l.get("search") else None
+                # a client knows nothing about server-side prefixes: it follows the path as given
                 if V.is_local_href(href):
                     out.append((V.unquote_to_selector(href), t))
         return out
@@ -82,6 +78,23 @@ def register(OPS, drv):
                     else:
                         data, r = fetch(w, proto, sel)
                     out = r["out"].encode("latin-1")
+                    if proto == "gemini":
+                        # input prompt (1x): resubmit with a query; redirect (3x): follow it — as a client would
+                        for _hop in range(3):
+                            m10 = out[:2] in (b"10", b"11")
+                            m30 = out[:2] in (b"30", b"31")
+                            if m10:
+                                data, r = fetch(w, proto, sel, search="needle")
+                            elif m30:
+                                import urllib.parse as _up
+                                tgt = out.split(b"\r\n")[0][3:].decode("ascii", "surrogateescape")
+                                cur = data.decode("ascii", "surrogateescape").strip()
+                                joined = _up.urljoin("http" + cur[len("gemini"):], tgt)   # urljoin only knows http-like schemes
+                                data = ("gemini" + joined[len("http"):]).encode("ascii", "surrogateescape") + b"\r\n"
+                                r = drv.serve_once(w.config, data, tls=True)
+                            else:
+                                break
+                            out = r["out"].encode("latin-1")
                     pages.append({"proto": proto, "selector": drv.b2s(sel), "type": typ, "parent": parent,
                                   "request": drv.b2s(data), "out": r["out"], "exc": r["exc"], "log": r["log"]})
                     is_menu_type = typ in ("1", None)
